@@ -190,3 +190,9 @@ Definition enc_section (le : bool) (l : list subsec) : list Z := 65 :: enc_subse
 Definition wf_section (fl : flavour) (l : list subsec) : bool := forallb (wf_subsec fl) l.
 Definition expected_section (fl : flavour) (l : list subsec) : list osubsec :=
   map (expected_subsec fl) l.
+
+(* ---- field layouts of the structures (IHI 0045: uint32 length, NTBS vendor name;
+        tags and values are uleb128, sizes are uint32, all in the file's byte order) ---- *)
+Definition u32_kind (le : bool) : string := if le then "u32le" else "u32be".
+Definition spec_attr_subsection_header (le : bool) : list (string * string) :=
+  [("length", u32_kind le); ("vendor_name", "ntbs")].
